@@ -82,9 +82,15 @@ if __name__ == '__main__':
         for row in pool.imap(one, todo):
             rows.append(row)
             print(row[0], 'own:', row[2], 'caught_by:', row[3], 'broken:', row[4], row[5], flush=True)
-    # merge with rows of stored seeds not re-run this time
+    # MATRIX.md is rebuilt from every stored meta.json, so a partial re-run keeps the other rows
+    import glob
+    allrows = []
+    for mp in sorted(glob.glob(os.path.join(VERIF, 'seeded', '*', 'meta.json'))):
+        m = json.load(open(mp))
+        own = m.get('own_property_check')
+        allrows.append((m['id'], m['breaks_property'], own.get('rc') if isinstance(own, dict) else None, m.get('caught_by', []), m.get('analysis_broken_in', []), m.get('checks_run_at_repo_head')))
     with open(os.path.join(VERIF, 'seeded', 'MATRIX.md'), 'w') as f:
-        f.write('# Seeded changes vs checks (repo HEAD %s)\n\nEach seed was applied to a scratch copy of /repo and all %d checks were run on it. '
-                '"own check" is the check of the property the seed was written against.\n\n| seed | property | own check | caught by | analysis-broken in |\n|---|---|---|---|---|\n' % (head, len(claimed)))
-        for name, prop, rc, cb, bb, note in rows:
-            f.write('| %s | %s | %s | %s | %s |\n' % (name, prop, {1: 'VIOLATION', 0: 'missed', 2: 'exit 2'}.get(rc, note or rc), ', '.join(cb) or '-', ', '.join(bb) or '-'))
+        f.write('# Seeded changes vs checks\n\nEach seed was applied to a scratch copy of /repo and all %d checks were run on it (tools/seed_matrix.py). '
+                '"own check" is the check of the property the seed was written against.\n\n| seed | property | own check | caught by | analysis-broken in | /repo HEAD |\n|---|---|---|---|---|---|\n' % len(claimed))
+        for name, prop, rc, cb, bb, hd in allrows:
+            f.write('| %s | %s | %s | %s | %s | %s |\n' % (name, prop, {1: 'VIOLATION', 0: 'missed', 2: 'exit 2'}.get(rc, rc), ', '.join(cb) or '-', ', '.join(bb) or '-', hd))
